@@ -204,6 +204,11 @@ theorem c07_src_model_tests (xs : Bits) (r : R) (crefs : List R) (n : Nat) (b : 
       have := (c07_src_read_bound s.bits.length n 0).2.1; simp [h] at this; omega
     simp [SOp.delBits, hn, this]
 
+/-- concrete values of the regenerated tests at the capacity boundary (hypotheses of `c07_src_model_tests` are met: a full
+builder, an over-read). -/
+example : Generated.bitsOverflow 1000 23 = false ∧ Generated.bitsOverflow 1000 24 = true ∧ Generated.refsFull 3 = false ∧
+    Generated.refsFull 4 = true ∧ Generated.cellRefsOverflow 2 3 = true ∧ Generated.bitsUnderflow 3 4 = true := by decide
+
 end Src
 
 end TonVerif.Properties.C07
